@@ -199,6 +199,49 @@ def run_both(ctx, spec):
     pass
 
 
+def _lhw_giveup_state(n):
+  """Re-runs rsa_util.CheckLowHammingWeight(n) under a return-event tracer and
+  reports the search state at the moment it gave up: (steps, cutoff, minv).
+  None if the function's frame does not expose those names."""
+  import sys
+  from paranoid_crypto.lib import rsa_util
+  seen = {}
+
+  def tracer(frame, event, arg):
+    if frame.f_code.co_name != 'CheckLowHammingWeight':
+      return None
+
+    def local(fr, ev, a):
+      if ev == 'return':
+        loc = fr.f_locals
+        if all(k in loc for k in ('steps', 'cutoff', 'minv')):
+          seen['state'] = (int(loc['steps']), int(loc['cutoff']),
+                           int(loc['minv']))
+      return local
+    return local
+  old = sys.gettrace()
+  sys.settrace(tracer)
+  try:
+    res = rsa_util.CheckLowHammingWeight(n)
+  finally:
+    sys.settrace(old)
+  return res, seen.get('state')
+
+
+def _lhw_miss_family(ctx, n):
+  """A miss of the low-weight check is the documented give-up (F19's
+  mechanism) iff the search stopped at the cutoff step without ever having
+  seen a heuristic value below the modulus length."""
+  try:
+    res, st = _lhw_giveup_state(n)
+  except Exception:  # pylint: disable=broad-except
+    return 'both-low-weight'
+  ctx.count('lhw_misses_traced')
+  if st and not res[0] and st[0] == st[1] and st[2] >= n.bit_length():
+    return 'both-low-weight/abandoned-at-cutoff'
+  return 'both-low-weight'
+
+
 def run_lhw(ctx, spec):
   from paranoid_crypto.lib import rsa_single_checks as rs
   rng = ctx.rng('lhw')
@@ -220,7 +263,10 @@ def run_lhw(ctx, spec):
     # regime: set bits of a prime of weight >= 12 clustered in its top 3*hw
     # positions (search is abandoned at the cutoff there: finding F19)
     top = (c1 and bin(p).count('1') >= 12) or (c2 and bin(qq).count('1') >= 12)
-    _outcome(ctx, 'both-low-weight' + ('/clustered-top' if top else ''),
+    fam = 'both-low-weight' + ('/clustered-top' if top else '')
+    if not flagged and not top:
+      fam = _lhw_miss_family(ctx, n)
+    _outcome(ctx, fam,
              flagged, n, {'hw': (bin(p).count('1'), bin(qq).count('1')),
                           'clustered': (c1, c2), 'nbits': nbits})
   # the corner of the region: smallest moduli, weights next to the limit (the
@@ -235,7 +281,8 @@ def run_lhw(ctx, spec):
     n = p * qq
     flagged, _ = _run(ctx, chk, n)
     ctx.count('lhw_corner_moduli')
-    _outcome(ctx, 'both-low-weight', flagged, n,
+    _outcome(ctx, 'both-low-weight' if flagged else _lhw_miss_family(ctx, n),
+             flagged, n,
              {'hw': (bin(p).count('1'), bin(qq).count('1')), 'corner': True,
               'nbits': n.bit_length()})
   try:
@@ -466,6 +513,13 @@ def finalize(agg, tier):
                    'msg': '%d of %d moduli of family %s were not flagged/'
                    'factored (below the rate threshold)' % (miss, n, fam),
                    'data': {'miss': miss, 'n': n}})
+  fam = 'both-low-weight/abandoned-at-cutoff'
+  if c.get('miss:' + fam):
+    viol.append({'mech': 'lhw-abandoned-at-cutoff',
+                 'msg': '%d moduli with two primes of weight <= 32 (set bits '
+                 'not clustered) were not flagged: the search stopped at the '
+                 'cutoff step with every heuristic value >= the modulus length'
+                 % c['miss:' + fam], 'data': {'miss': c['miss:' + fam]}})
   fam = 'both-low-weight/clustered-top'
   if c.get('miss:' + fam):
     viol.append({'mech': 'lhw-clustered-top-bits-missed',
